@@ -46,8 +46,9 @@ theorem validate_never_cohorts_with_blockwise_reindex
 example : validateReindex none .plain (some .cohorts) true false true true = .ok (some false) := by decide +kernel
 example : validateReindex (some true) .plain (some .cohorts) true false true true = .err .valueError := by decide +kernel
 
-/-- arg-reductions on chunked input are never reindexed blockwise (`…_partial`: except under an explicit blockwise plan
-    with dask labels, where `reindex` resolves to `any_by_dask` — see the counterexample) -/
+/-- arg-reductions on chunked input are never reindexed blockwise by `_validate_reindex` (`…_partial`: except under an
+    explicit blockwise plan with dask labels, where `reindex` resolves to `any_by_dask` — see the counterexample; the
+    whole chain then accepts that plan on a single block only, `blockwise_dask_labels_single_block`) -/
 theorem argreduce_never_reindex_true_partial
     (reindex : Option Bool) (method : Option Method) (expected byDask arrDask isFloat : Bool)
     (hdask : (arrDask || byDask) = true) (hm : (method == some .blockwise && byDask) = false) :
@@ -179,12 +180,55 @@ example : cellExample.aligned = true ∧
 /-- **What reaches graph construction is consistent** (hence the two `raise ValueError` at the top of
     `dask_groupby_agg` and the strategy-specific `NotImplementedError`s cannot fire later): cohorts never with
     blockwise reindexing, blockwise reindexing only with known labels, arg-reductions under blockwise only on one block,
-    reductions without a chunk function only blockwise, a subset of the label axes only under map-reduce, a definite
-    reindex flag, and an explicit method is honoured (cohorts may fall back to map-reduce when there is nothing to
+    reductions without a chunk function only blockwise, a subset of the label axes only under map-reduce, a blockwise
+    plan reindexing every block only on a single block (always so with dask labels), a definite reindex flag, and an explicit method is honoured (cohorts may fall back to map-reduce when there is nothing to
     split). -/
 theorem validate_plan_sound (c : Cell) (hal : c.aligned = true) (p : Plan) (h : validate c = .ok p) :
     planSound c.toCoreCell p.method p.blockwise = true :=
   core_plan_sound c.toCoreCell hal p.method p.blockwise (validate_ok c p h).2.1
+
+/-- **A blockwise plan that reindexes every block is accepted only on a single block** along the reduced axes (with
+    several blocks the request is refused with ValueError; formerly finding C19-F8: only the first block's groups
+    reached the result). -/
+theorem blockwise_reindexed_only_single_block (c : Cell) (hal : c.aligned = true) (p : Plan) (h : validate c = .ok p)
+    (hm : p.method = some .blockwise) (hb : p.blockwise = some true) : c.singleBlock = true := by
+  have hs := validate_plan_sound c hal p h
+  cases hsb : c.singleBlock with
+  | true => rfl
+  | false =>
+    exfalso
+    simp [planSound, hm, hb, hsb] at hs
+
+/-- **method="blockwise" with dask labels** is accepted only when every block is reindexed to the expected groups, hence
+    only on a single block along the reduced axes — everything else is a clean refusal (formerly finding C19-F2:
+    pandas' TypeError). -/
+theorem blockwise_dask_labels_single_block (c : Cell) (hal : c.aligned = true) (p : Plan) (h : validate c = .ok p)
+    (hm : p.method = some .blockwise) (hd : c.byDask = true) : p.blockwise = some true ∧ c.singleBlock = true := by
+  have hs := validate_plan_sound c hal p h
+  have hb : p.blockwise = some true := by
+    rcases hpb : p.blockwise with _ | b
+    · exfalso; simp [planSound, hm, hd, hpb] at hs
+    · cases b with
+      | true => rfl
+      | false => exfalso; simp [planSound, hm, hd, hpb] at hs
+  exact ⟨hb, blockwise_reindexed_only_single_block c hal p h hm hb⟩
+
+def cellBlockwiseDask : Cell :=
+  { kind := .plain, method := some .blockwise, reindex := none, byDask := true, arrDask := true, ax := axisRel 1 1,
+    expected := true, isFloat := true, preferred := .mapReduce, cohortsEmpty := true, singleBlock := true,
+    aligned := true, fk := .plain, qGiven := true, engine := some .numpy, dtypeGiven := false, dtypeInt := false,
+    countMask := true, sorted := false, hasNumbagg := true }
+
+/-- non-vacuity: accepted on one block, refused (ValueError) on several blocks or with reindex=False; and with numpy
+    labels `method=None, reindex=True` for a reduction without a chunk function runs blockwise with every block
+    reporting its own groups -/
+example :
+    validate cellBlockwiseDask = .ok { method := some .blockwise, blockwise := some true, engine := .numpy } ∧
+    validate { cellBlockwiseDask with singleBlock := false } = .err .valueError ∧
+    validate { cellBlockwiseDask with reindex := some false } = .err .valueError ∧
+    validate { cellBlockwiseDask with kind := .blockwiseOnly, fk := .median, method := none, reindex := some true,
+                                      byDask := false, preferred := .blockwise, cohortsEmpty := false, singleBlock := false }
+      = .ok { method := some .blockwise, blockwise := some false, engine := .numpy } := by decide +kernel
 
 /-- an accepted arg-reduction never runs on flox's own engine (which does not implement it) -/
 theorem validate_engine_able (c : Cell) (p : Plan) (hfk : c.fk.isArg = true) (h : validate c = .ok p) :
